@@ -1,6 +1,8 @@
 import JaqalProofs.Lemmas.ParserSound
 import JaqalProofs.Lemmas.ParserComplete
 import JaqalProofs.Lemmas.SepExchange
+import JaqalProofs.Lemmas.ParserErrPos
+import JaqalProofs.Lemmas.LexerSpec
 /-!
 # C02 — the parser accepts exactly the Jaqal grammar
 
@@ -9,6 +11,10 @@ import JaqalProofs.Lemmas.SepExchange
 -/
 namespace Jaqal.C02
 open Jaqal Jaqal.Lexer Jaqal.Parser Jaqal.Grammar
+
+/-- The text used by the non-vacuity examples. -/
+def exampleText : String :=
+  "register q[2]; let a 0.5\n\n loop 3 { < Rx q[0] a | Ry q[1] -1 > ; subcircuit { g } }\n"
 
 /-- Whatever the parser accepts is a program of the grammar, with the reported tree. -/
 theorem C02_sound {ts : List PTok} {t : Sx} (h : parse ts = .ok t) : Derives (ts.map (·.tok)) t :=
@@ -80,9 +86,93 @@ theorem C02_sep_exchange_result {ts ts' : List PTok} {t t' : Sx} (h : parse ts =
   rw [e] at d
   exact C02_unique d d'
 
+/-! ## Nothing outside comments and blanks is dropped -/
+
+/-- The text is, from left to right, a sequence of blanks (space, tab), comments (`//…` up to the end of
+the line, `/*…*/`) and token texts, and the lexer's output is exactly the tokens of the token texts, in
+order: no character outside a comment or a blank is skipped (`Covers`, `Lemmas/LexerSpec.lean`). Together
+with `C02_sound`, every token reaches the statement tree's derivation. -/
+theorem C02_no_drop {txt : String} {ts : List PTok} (h : lex txt = .ok ts) :
+    Covers txt.toList (ts.map (·.tok)) :=
+  lex_covers h
+
+theorem example_lexes : (lex exampleText).toOption.isSome = true := by decide +kernel
+
+/-- non-vacuity of `C02_no_drop` -/
+example : ∃ ts, lex exampleText = .ok ts := by
+  have := example_lexes
+  cases h : lex exampleText with
+  | ok ts => exact ⟨ts, rfl⟩
+  | error e => rw [h] at this; simp [Except.toOption] at this
+
+/-! ## Positions of errors -/
+
+/-- `(l, c)` is the line and column of a place of the text where a token starts (`l` is the line the lexer
+assigns to that token, `c = i − rfind("\n", 0, i)` for its offset `i`), or where lexing stops at an illegal
+character or an out-of-range number. -/
+def IsTokenPos (txt : String) (l c : Nat) : Prop :=
+  (∃ p ∈ (lexAll txt).1, StartsAt txt.toList p.index (some p.tok) ∧ p.line = l ∧ c = colOf txt.toList p.index) ∨
+  (∃ e i, (lexAll txt).2 = some e ∧ StartsAt txt.toList i none ∧ e.line = l ∧ e.col = c ∧ c = colOf txt.toList i)
+
+/-- A parse error that is not "at end of input" is reported at a token of the text (the start of a token
+the lexer produced, or the character at which lexing fails). -/
+theorem C02_error_pos_partial {txt : String} {l c : Nat}
+    (h : parseText txt = .error (.parseError (some l) c)) : IsTokenPos txt l c := by
+  obtain ⟨hpos, herr⟩ := lexAll_positions txt
+  have key : ∀ e, parse (lexAll txt).1 = .error e → e.toErr txt.toList = .parseError (some l) c →
+      IsTokenPos txt l c := by
+    intro e he hto
+    have hat := parse_err he
+    cases e with
+    | syntaxAt l' i =>
+      obtain ⟨p, hp, h1, h2⟩ := hat
+      simp only [ParseErr.toErr, Err.parseError.injEq, Option.some.injEq] at hto
+      exact Or.inl ⟨p, hp, hpos p hp, h1.trans hto.1, by rw [h2]; exact hto.2.symm⟩
+    | syntaxEOF => simp [ParseErr.toErr] at hto
+    | action k l' i a =>
+      obtain ⟨p, hp, h1, h2⟩ := hat
+      simp only [ParseErr.toErr, Err.parseError.injEq, Option.some.injEq] at hto
+      exact Or.inl ⟨p, hp, hpos p hp, h1.trans hto.1, by rw [h2]; exact hto.2.symm⟩
+    | outOfFuel => simp [ParseErr.toErr] at hto
+  have lexCase : ∀ le, (lexAll txt).2 = some le → lexErrToErr le = .parseError (some l) c →
+      IsTokenPos txt l c := by
+    intro le hle hto
+    obtain ⟨i, hi, hcol⟩ := herr le hle
+    simp only [lexErrToErr, Err.parseError.injEq, Option.some.injEq] at hto
+    exact Or.inr ⟨le, i, hle, hi, hto.1, hto.2, by rw [← hto.2, hcol]⟩
+  unfold parseText at h
+  split at h
+  · rename_i ts hl
+    have e1 : (lexAll txt).1 = ts := by rw [hl]
+    split at h
+    · cases h
+    · rename_i e he
+      exact key e (e1 ▸ he) (by injection h)
+  · rename_i ts le hl
+    have e1 : (lexAll txt).1 = ts := by rw [hl]
+    have e2 : (lexAll txt).2 = some le := by rw [hl]
+    split at h
+    · exact lexCase le e2 (by injection h)
+    · rename_i e he
+      split at h
+      · exact lexCase le e2 (by injection h)
+      · exact key e (e1 ▸ he) (by injection h)
+
+/-- The full statement of the error-position property, NOT proved here: besides `C02_error_pos_partial`, a
+syntax error is reported at the FIRST token at which the input stops being a viable prefix (`Viable`:
+some continuation is a program of the grammar, side conditions aside), and an action error (register size,
+header after body, import) at the first token of the offending statement.
+What is missing is the viability half: a proof that whenever the recursive descent consumes a token, the
+consumed prefix can be completed to a program (a completion has to be constructed for every parser state).
+The agreement of the reported position with the real LALR parser is instead checked by the differential
+harness (`harness/agents/parse_diff.py`, token mutants and character noise). -/
+def C02_error_pos_full : Prop :=
+  ∀ (ts : List PTok) (l i : Nat), parse ts = .error (.syntaxAt l i) →
+    ∃ (before : List PTok) (p : PTok) (after : List PTok), ts = before ++ p :: after ∧ p.line = l ∧ p.index = i ∧
+      (∃ suffix t, Derives (before.map (·.tok) ++ suffix) t) ∧
+      ¬ (∃ suffix t, Derives ((before ++ [p]).map (·.tok) ++ suffix) t)
+
 /-! Non-vacuity: a program with a header, a loop over a parallel block, a subcircuit. -/
-def exampleText : String :=
-  "register q[2]; let a 0.5\n\n loop 3 { < Rx q[0] a | Ry q[1] -1 > ; subcircuit { g } }\n"
 
 example : (lex exampleText).toOption.isSome = true := by decide +kernel
 
@@ -103,6 +193,15 @@ example : ∃ ts t, parse ts = .ok t ∧ (∃ p ∈ ts, p.tok = .semi) ∧ (∃ 
   obtain ⟨t, ht⟩ := example_parses
   exact ⟨_, t, ht, by decide +kernel, by decide +kernel, C02_sep_exchange_semi ht, C02_sep_exchange_bar ht⟩
 
+/-- non-vacuity of `C02_error_pos_partial`: a syntax error in the middle of a text, and a lexing error -/
+def isErrAt (r : Except Err Sx) (l c : Nat) : Bool :=
+  match r with
+  | .error (.parseError (some l') c') => l' == l && c' == c
+  | _ => false
+example : isErrAt (parseText "g a\n{ x ; ] }") 2 7 = true := by decide +kernel
+example : isErrAt (parseText "g a\n  $") 2 3 = true := by decide +kernel
+example : isErrAt (parseText "register q[0]") 1 1 = true := by decide +kernel
+
 #print axioms C02_sound
 #print axioms C02_complete
 #print axioms C02_unique
@@ -111,5 +210,7 @@ example : ∃ ts t, parse ts = .ok t ∧ (∃ p ∈ ts, p.tok = .semi) ∧ (∃ 
 #print axioms C02_sep_exchange_semi
 #print axioms C02_sep_exchange_bar
 #print axioms C02_sep_exchange_result
+#print axioms C02_no_drop
+#print axioms C02_error_pos_partial
 
 end Jaqal.C02
